@@ -130,6 +130,10 @@ def run(tier):
     n = 300 if tier == "quick" else 4000
     blocks = gen.blocks(sd * 7 + 5, n, profiles=("arith", "rules", "mixed"))
     runs = e2e.run_optimize(blocks, [["-greedy"], ["-greedy", "-size"], ["-greedy", "-no-simplification"]], assign="all")
+    # the systematic neighbourhood of the rules (every template x every operator of its family x small constants)
+    corpus = gen.rule_corpus()
+    c["rule-neighbourhood-blocks"] = len(corpus)
+    runs += e2e.run_optimize(corpus, [["-greedy"]] if tier == "quick" else [["-greedy"], ["-greedy", "-size"], ["-greedy", "-length"]], assign="all")
     bpairs = []
     for text, opts, e, st in runs:
         if e is None:
